@@ -1671,6 +1671,82 @@ class C10(core.Check):
                     {'tok': 2, 'th': 1, 'app': 'B', 'path': '/x', 'body': 'form', 'fail': None, 'muts': []}]}]})
         return out
 
+    def extra(self):
+        """the answer to a request does not depend on the requests served before it, for two kinds of state the
+        generated histories do not reach (every generated request carries its own token in the query string, and no
+        generated path is served by a handler tool made with keyword arguments):
+          (a) GET ?tag=a&tag=b ; POST the same query with a form body adding tag=c, whose handler also appends to the
+              list it was given ; the same GET again, on this and on another thread - must be answered as the first;
+          (b) a staticdir handler made with keyword arguments, reachable under two sections with different tool
+              settings: /docs/b.html ; /docs/drafts/a.txt (section with tools.staticdir.match) ; /docs/b.html again.
+        Oracle only."""
+        import shutil
+        import tempfile
+        from ..impl import wsgi
+        cherrypy = self._cherrypy
+        out = []
+        d = tempfile.mkdtemp(prefix='c10x')
+        try:
+            os.makedirs(os.path.join(d, 'drafts'))
+            for rel, data in (('b.html', b'<b>b</b>'), ('drafts/a.txt', b'draft a')):
+                with open(os.path.join(d, rel), 'wb') as f:
+                    f.write(data)
+
+            class Root:
+                @cherrypy.expose
+                def echo(self, **kw):
+                    seen = repr(sorted((k, v) for k, v in cherrypy.request.params.items()))
+                    for v in cherrypy.request.params.values():
+                        if isinstance(v, list):
+                            v.append('appended-by-handler')
+                    return seen
+                docs = cherrypy.tools.staticdir.handler(section='/docs', dir=d)
+            app = wsgi.make_app(Root(), {'/': {'request.show_tracebacks': False},
+                                         '/docs/drafts': {'tools.staticdir.match': r'\.txt$'}})
+
+            def view(r):
+                return [r['status'], r['body'][:200].decode('latin-1')]
+            # (a)
+            q = '/echo?tag=a&tag=b'
+            first = view(wsgi.call(app, 'GET', q))
+            form = b'tag=c'
+            wsgi.call(app, 'POST', q, [('Content-Type', 'application/x-www-form-urlencoded'),
+                                       ('Content-Length', str(len(form)))], form)
+            again = view(wsgi.call(app, 'GET', q))
+            box = []
+            t = threading.Thread(target=lambda: box.append(view(wsgi.call(app, 'GET', q))))
+            t.start()
+            t.join(30)
+            self.count('extra: repeated query key across requests')
+            if again != first or box != [first]:
+                out.append(core.Violation(
+                    'params-leak-across-requests',
+                    'GET %s answered %r as the first request; after a POST with the same query string and a form body '
+                    '(handler appends to the list parameter) the same GET is answered %r (other thread: %r)'
+                    % (q, first, again, box), case={'k': 'repeated-query-key'},
+                    observed={'first': first, 'again': again, 'other_thread': box}))
+            # (b)
+            b0 = view(wsgi.call(app, 'GET', '/docs/b.html'))
+            dr = view(wsgi.call(app, 'GET', '/docs/drafts/a.txt'))
+            b1 = view(wsgi.call(app, 'GET', '/docs/b.html'))
+            self.count('extra: handler tool with keyword arguments under two sections')
+            if b1 != b0 or b0[0] != 200 or dr[0] != 200:
+                out.append(core.Violation(
+                    'tool-settings-leak-across-requests',
+                    'GET /docs/b.html answered %r; after GET /docs/drafts/a.txt (%r; its section sets '
+                    'tools.staticdir.match) the same request is answered %r' % (b0, dr, b1),
+                    case={'k': 'handler-tool-kwargs'}, observed={'first': b0, 'drafts': dr, 'again': b1}))
+            import logging
+            try:
+                cherrypy.engine.unsubscribe('graceful', app.log.reopen_files)
+            except Exception:
+                pass
+            for lg in (app.log.error_log, app.log.access_log):
+                logging.Logger.manager.loggerDict.pop(lg.name, None)
+        finally:
+            shutil.rmtree(d, ignore_errors=True)
+        return out
+
     def cases(self):
         n = 700 if self.tier == 'quick' else 6000
         out = self.systematic()
